@@ -150,6 +150,27 @@ def model_check(family, cfgs, bounds, wd, workers=NCPU, timeout=3000, coverage=F
     return res
 
 
+def apalache_core(wd, timeout=900):
+    """Unbounded part: Apalache shows the invariant of FamilyCore.tla inductive (Init => IndInv, IndInv /\\ Next => IndInv')."""
+    res = []
+    for name, args in (("initiation", ["--init=Init", "--inv=IndInv", "--length=0"]), ("consecution", ["--init=IndInit", "--inv=IndInv", "--length=1"])):
+        out_dir = os.path.join(wd, "apalache_" + name)
+        t0 = time.time()
+        try:
+            p = subprocess.run(["apalache-mc", "check", "--cinit=CInit", *args, f"--out-dir={out_dir}", f"--run-dir={out_dir}/run", os.path.join(SPEC, "FamilyCore.tla")],
+                               cwd=wd, capture_output=True, text=True, timeout=timeout)
+            out = p.stdout + p.stderr
+        except subprocess.TimeoutExpired:
+            raise Indeterminate(f"apalache {name} timed out")
+        ok = "The outcome is: NoError" in out
+        shutil.rmtree(out_dir, ignore_errors=True)
+        if not ok:
+            raise Indeterminate(f"apalache {name} of FamilyCore.IndInv did not pass (specification problem, not a verdict about the code):\n" + out[-2000:])
+        res.append({"obligation": name, "args": args, "ok": True, "wall_s": round(time.time() - t0, 1)})
+    log(f"[apalache] FamilyCore.IndInv inductive (N=6 slots, M=8 grants, any history length): {res[0]['wall_s']}s + {res[1]['wall_s']}s")
+    return {"module": "FamilyCore.tla", "invariant": "IndInv", "constants": "N=6 slots, M=8 grants", "obligations": res}
+
+
 HIST_RE = re.compile(r'^<<"HIST", (".*")>>$')
 
 
